@@ -361,6 +361,11 @@ func c02run(c *fw.Ctx, idx int) {
 	for k, v := range cs.Files {
 		loader.Set(k, v)
 	}
+	if idx%23 == 0 {
+		// an edit of the loader that finds nothing to do leaves nothing behind: the lookups below return as always
+		loader.Delete("/never/stored.jet")
+		c.Count("lookups_after_delete_of_absent_entry", 1)
+	}
 	var ld jet.Loader = loader
 	if cs.OpenFail != "" || cs.ReadFail != "" {
 		rl := rec.NewLoader(loader)
